@@ -380,7 +380,7 @@ pub fn scenarios(tier: &str) -> Vec<Scenario> {
             r
         }).collect();
         let mut s = Scenario::new(&name, rs, ps);
-        s.env.budgets = vec![("read", 24), ("write", 24), ("flush", 12), ("env", 40), ("envq", 8), ("shutdown", 2)];
+        s.env.budgets = vec![("read", 80), ("write", 80), ("flush", 60), ("env", 200), ("envq", 60), ("shutdown", 20)];
         s
     };
     // singles: every request kind x every program
@@ -438,7 +438,7 @@ pub fn scenarios(tier: &str) -> Vec<Scenario> {
 
 pub fn bound(sc: &Scenario, tier: &str) -> u32 {
     if tier == "thorough" {
-        3
+        4
     } else {
         2
     }
